@@ -119,6 +119,39 @@ Theorem C18_shared_pruned_set_refuted :
   nth_error (map (run_op sha256 path_eqb wit_root) wit_ops) 1.
 Proof. exact shared_pruned_set_refuted. Qed.
 
+(** History independence extends to INTERLEAVINGS of concurrent calls on one
+    prover: CreateProof split into its two steps (build the pruned tree and
+    attach it to a Merkle-proof header cell; serialise that cell), any number of
+    calls, any schedule of their steps — a call emits the proof of its own
+    prune set.  The reason is that a prover is read-only after construction and
+    the header belongs to the call; the model has no prover state at all, so
+    the statement is immediate there and its content is the run: K goroutines
+    on ONE *boc.MerkleProver, every result compared with the operation alone
+    (kind c18.conc; the model of that kind is [run_multi], schedule-free). *)
+Theorem C18_interleaving_independent :
+  forall (H : bytes -> bytes) root (ops : nat -> list (list nat)) sched t r,
+  In (t, Some r) (crun H root ops false (mkC (fun _ => None) None) sched) ->
+  r = create_proof H (in_paths (ops t)) root.
+Proof. exact interleaving_independent. Qed.
+
+(** Not vacuous: with ONE header cell owned by the prover and shared by the
+    calls, the schedule Attach 0; Attach 1; Emit 0 makes call 0 return call
+    1's proof (still committing to the root, revealing the wrong subtree),
+    while every sequential schedule is right. *)
+Theorem C18_shared_header_refuted :
+  let racy := [Attach 0; Attach 1; Emit 0; Emit 1] in
+  let seq := [Attach 0; Emit 0; Attach 1; Emit 1] in
+  let s0 := mkC (fun _ => None) None in
+  emitted_pruned_at (crun sha256 wit_root wit_calls false s0 racy) 0 [1%nat] = Some true /\
+  emitted_pruned_at (crun sha256 wit_root wit_calls false s0 racy) 0 [0%nat] = Some false /\
+  emitted_pruned_at (crun sha256 wit_root wit_calls true s0 racy) 0 [1%nat] = Some false /\
+  emitted_pruned_at (crun sha256 wit_root wit_calls true s0 racy) 0 [0%nat] = Some true /\
+  crun sha256 wit_root wit_calls true s0 seq = crun sha256 wit_root wit_calls false s0 seq /\
+  ~ (forall t r, In (t, Some r) (crun sha256 wit_root wit_calls true s0 racy) ->
+                 r = proof_of sha256 wit_root wit_calls t).
+Proof. exact shared_header_refuted. Qed.
+
+Print Assumptions C18_interleaving_independent.
 Print Assumptions C18_key_proof_reveals.
 Print Assumptions C18_prune_preserves_level0.
 Print Assumptions C18_proof_commits.
